@@ -208,6 +208,7 @@ def pipeline(tier):
     cases = make_cases(tier, sd, WALK)
     binary = vlib.build_test("", wd, name="dawn")
     traces = vlib.run_harness(binary, "TestVerifModLoad", cases, wd)
+    traces, crashes = vlib.split_crashes(traces)
     by_id = {c["id"]: c for c in cases}
     stalls = [t for t in traces if t.get("stall")]
     traces = [t for t in traces if not t.get("stall")]
@@ -239,6 +240,9 @@ def pipeline(tier):
             out.append({"prop": x["prop"], "what": x["what"], "m": x.get("m", ""), "at": x.get("at"), "id": v["id"],
                         "case": by_id.get(v["id"]), "mode": t["mode"],
                         "detail": [e for e in t["events"] if e["ev"] in ("LoadDone", "Hang", "Deadlock")][:2]})
+    for t in crashes:
+        out.append({"prop": "C06", "what": "the process was killed by the Go runtime inside the loader: " + t["crash"], "m": "", "at": 0,
+                    "id": t["id"], "case": None, "mode": "crash", "detail": []})
     res["violations"] = out
     ctl = [t for t in traces if t["mode"] in ("script", "random", "pct") and t.get("steps") and not t.get("bounded")]
     sample = ctl if tier != "quick" else ctl[:: max(1, len(ctl) // 400)]
